@@ -12,7 +12,7 @@ def generate(ctx, sizes, quick):
     rng = random.Random(ctx.seed)
     allr = []
     for si, n in enumerate(sizes, start=1):
-        restarts = "{0, %d}" % (n // 2) if quick else "{%s}" % ", ".join(str(i) for i in range(n))
+        restarts = "{%s}" % ", ".join(str(i) for i in sorted({0, n // 2, n - 1})) if quick else "{%s}" % ", ".join(str(i) for i in range(n))
         # a second delivery of any blob at any later position (also while it still waits for a dependency)
         dups = "{%s}" % ", ".join(str(i) for i in range(n + 1))
         r = ctx.tlc_gen("IndexOOOGen", "IndexOOOGen.cfg", overrides={"Shape": si, "N": n, "Restarts": restarts, "Dups": dups, "DupPos": '"any"'}, tag="RPL")
@@ -94,6 +94,12 @@ def _run_driver1(ctx, replays, kv="memory", tag="", which="both", race=False, ex
         if part > 50:
             raise vlib.MachineryError("c05 driver died more than 50 times")
     return o5, o6
+
+
+def shape_names(ctx):
+    drv = ctx.build("c05")
+    rc, so, se = ctx.run([drv, "-shapenames"])
+    return json.loads(so.strip().splitlines()[-1])
 
 
 def shapes(ctx):
